@@ -2,7 +2,11 @@
  *   A <codec> <k> <r> <L> <p1> <p2>   -> R A<status of of_set_fec_parameters on an encoder session>,<same on a decoder session>
  *   G <codec> <k> <r> <L> <p1> <p2>   -> R G<statuses of a list of corrupted calls on configured sessions> U<1 if both sessions
  *                                         still encode/decode a block correctly afterwards>
- * corrupted calls (each must return an error status, i.e. not 0):
+ *   H <codec> <k> <r> <L> <p1> <p2> <ses>/<call> ...   -> R H<status of each call, comma separated> U<encoder, decoder, encoder+decoder
+ *                                         sessions still usable afterwards>  M<MAX_K>,<MAX_N> as of_get_control_parameter reports them
+ *       ses: 0 (NULL) e (OF_ENCODER) d (OF_DECODER) b (OF_ENCODER_AND_DECODER);  call: B:<esi>  D:<buf null>:<esi>  S:<tab null>  F  C  T
+ *       K:<src cb null>:<rep cb null>  G:<type>:<value null>:<length>  X      (same grammar as the model stream A, coq/ApiArgs.v)
+ * corrupted calls of G (each must return an error status, i.e. not 0):
  *   set_fec_parameters(NULL), build(NULL ses), decode(NULL ses), decode with esi = n, n+1, 2^32-1, build with esi = 0 (a source),
  *   k-1, n, 2^32-1, build on a decoder-only session, decode on an encoder-only session, decode with a NULL symbol */
 #include <stdio.h>
@@ -18,15 +22,75 @@ static of_status_t set_params(of_session_t *ses, int codec, UINT32 k, UINT32 r, 
 	{ of_ldpc_parameters_t p; memset(&p, 0, sizeof p); p.nb_source_symbols = k; p.nb_repair_symbols = r; p.encoding_symbol_length = L; p.N1 = (UINT8)p1; p.prng_seed = (INT32)p2; return of_set_fec_parameters(ses, (of_parameters_t *)&p); }
 }
 
+static void *cb_null(void *ctx, UINT32 size, UINT32 esi) { (void)ctx; (void)size; (void)esi; return NULL; }
+
+/* one life cycle on an encoder-capable session e and a decoder-capable session d (may be the same object): build every repair
+ * symbol into a private table, compare with the reference codeword, feed everything but source 0, finish, compare source 0 */
+static int usable(of_session_t *e, of_session_t *d, void **ref, UINT32 k, UINT32 n, UINT32 L)
+{
+	UINT32 i; int ok = 1; void **t2 = calloc(n, sizeof *t2), **rx = calloc(n, sizeof *rx), **src = calloc(k, sizeof *src);
+	for (i = 0; i < n; i++) { t2[i] = malloc(L); memcpy(t2[i], ref[i], L); if (i >= k) memset(t2[i], 0x5a, L); }
+	if (e) for (i = k; i < n; i++) { if (of_build_repair_symbol(e, t2, i) != OF_STATUS_OK || memcmp(t2[i], ref[i], L)) ok = 0; }
+	if (d) {
+		for (i = 1; i < n; i++) { rx[i] = malloc(L); memcpy(rx[i], ref[i], L); if (of_decode_with_new_symbol(d, rx[i], i) != OF_STATUS_OK) ok = 0; }
+		of_finish_decoding(d);
+		if (!of_is_decoding_complete(d)) ok = 0;
+		else if (of_get_source_symbols_tab(d, src) != OF_STATUS_OK || !src[0] || memcmp(src[0], ref[0], L)) ok = 0;
+	}
+	for (i = 0; i < n; i++) free(t2[i]);
+	free(t2); free(src);   /* rx[] and decoded symbols stay with the sessions until they are released by the caller (leak check is off here) */
+	free(rx);
+	return ok;
+}
+
 int main(void)
 {
-	char line[512];
+	static char line[1 << 16];
 	FILE *out = fdopen(dup(1), "w");
 	setvbuf(out, NULL, _IOLBF, 0);
 	freopen("/dev/null", "w", stdout);
 	while (fgets(line, sizeof line, stdin)) {
-		char kind; long codec; unsigned long long k, r, L; long p1, p2;
-		if (sscanf(line, "%c %ld %llu %llu %llu %ld %ld", &kind, &codec, &k, &r, &L, &p1, &p2) != 7) { fprintf(out, "R BADREQ\n"); continue; }
+		char kind; long codec; unsigned long long k, r, L; long p1, p2; int consumed = 0;
+		if (sscanf(line, "%c %ld %llu %llu %llu %ld %ld%n", &kind, &codec, &k, &r, &L, &p1, &p2, &consumed) != 7) { fprintf(out, "R BADREQ\n"); continue; }
+		if (kind == 'H') {
+			of_session_t *p = NULL, *e = NULL, *d = NULL, *b = NULL; UINT32 n = (UINT32)(k + r), i; void **tab, **src; char *tok; int first = 1;
+			UINT32 mk = 0, mn = 0; void **tab2;
+			of_create_codec_instance(&p, (of_codec_id_t)codec, OF_ENCODER, 0); of_create_codec_instance(&e, (of_codec_id_t)codec, OF_ENCODER, 0);
+			of_create_codec_instance(&d, (of_codec_id_t)codec, OF_DECODER, 0); of_create_codec_instance(&b, (of_codec_id_t)codec, OF_ENCODER_AND_DECODER, 0);
+			if (set_params(p, codec, k, r, L, p1, p2) || set_params(e, codec, k, r, L, p1, p2) || set_params(d, codec, k, r, L, p1, p2) || set_params(b, codec, k, r, L, p1, p2)) { fprintf(out, "R NOTCONFIGURED\n"); continue; }
+			tab = calloc(n, sizeof *tab); src = calloc(k, sizeof *src);
+			for (i = 0; i < n; i++) { tab[i] = malloc(L); memset(tab[i], (int)(i * 37 + 11), L); }
+			for (i = k; i < n; i++) of_build_repair_symbol(p, tab, i);
+			/* build calls of the grid write into a private copy: an LDPC session that has decoded has consumed its matrix, so what an
+			 * encoder+decoder session builds after decoding calls is not the codeword (using one session for both directions of the same
+			 * block is outside the documented protocol); the reference codeword must not depend on it */
+			tab2 = calloc(n, sizeof *tab2);
+			for (i = 0; i < n; i++) { tab2[i] = malloc(L); memcpy(tab2[i], tab[i], L); }
+			fprintf(out, "R H");
+			for (tok = strtok(line + consumed, " \n"); tok; tok = strtok(NULL, " \n")) {
+				of_session_t *s = tok[0] == 'e' ? e : tok[0] == 'd' ? d : tok[0] == 'b' ? b : NULL;
+				char fn = tok[2]; unsigned long long a1 = 0, a2 = 0, a3 = 0; int st = -1;
+				sscanf(tok + 3, ":%llu:%llu:%llu", &a1, &a2, &a3);
+				switch (fn) {
+				case 'B': st = of_build_repair_symbol(s, tab2, (UINT32)a1); break;
+				case 'D': st = of_decode_with_new_symbol(s, a1 ? NULL : tab[a2 < n ? a2 : 0], (UINT32)a2); break;
+				case 'S': st = of_set_available_symbols(s, a1 ? NULL : tab); break;
+				case 'F': st = of_finish_decoding(s); break;
+				case 'C': st = of_is_decoding_complete(s) ? 100 : 101; break;
+				case 'T': st = of_get_source_symbols_tab(s, src); break;
+				case 'K': st = of_set_callback_functions(s, a1 ? NULL : cb_null, a2 ? NULL : cb_null, NULL); break;
+				case 'G': { UINT64 v = 0; st = of_get_control_parameter(s, (UINT32)a1, a2 ? NULL : &v, (UINT32)a3); } break;
+				case 'X': { UINT32 v = 0; st = of_set_control_parameter(s, 1, &v, sizeof v); } break;
+				}
+				fprintf(out, "%s%d", first ? "" : ",", st); first = 0;
+			}
+			of_get_control_parameter(d, OF_CTRL_GET_MAX_K, &mk, sizeof mk); of_get_control_parameter(d, OF_CTRL_GET_MAX_N, &mn, sizeof mn);
+			fprintf(out, " U%d%d%d M%u,%u\n", usable(e, NULL, tab, k, n, L), usable(NULL, d, tab, k, n, L), usable(codec == 3 ? NULL : b, b, tab, k, n, L), mk, mn);
+			of_release_codec_instance(p); of_release_codec_instance(e); of_release_codec_instance(d); of_release_codec_instance(b);
+			for (i = 0; i < n; i++) { free(tab[i]); free(tab2[i]); }
+			free(tab); free(tab2); free(src);
+			continue;
+		}
 		if (kind == 'A') {
 			of_session_t *e = NULL, *d = NULL; int s1, s2;
 			of_create_codec_instance(&e, (of_codec_id_t)codec, OF_ENCODER, 0);
